@@ -399,7 +399,13 @@ func (r *R) rune_() rune {
 	return pickOf(r, cpClasses[r.Intn(len(cpClasses))])
 }
 
+// strings that look like something else: the spellings of non-string values and of placeholders an implementation might use internally
+var sentinelStrings = []string{"NaN", "+Inf", "-Inf", "Inf", "Infinity", "null", "nil", "<nil>", "true", "false", "undefined", "0", "-0", "1e5", "[]", "{}", "[NaN]", ",NaN", "\"\"", "\\u0000", "\x00", "%s", "%!s(MISSING)"}
+
 func (r *R) str() string {
+	if r.chance(0.04) {
+		return pickOf(r, sentinelStrings)
+	}
 	n := 0
 	switch r.Intn(6) {
 	case 0:
@@ -635,6 +641,10 @@ func (r *R) listTree(o *TreeOpts) *V {
 	return l
 }
 
+// pairs of keys of which one is the JSON-escaped (or otherwise "encoded") spelling of the other: distinct keys that a comparison on
+// the wrong side of a decoding step would confuse
+var keyTwins = [][2]string{{"\\n", "\n"}, {"a\\\"b", "a\"b"}, {"\\\\", "\\"}, {"\\u0041", "A"}, {"\\/", "/"}, {"\\t", "\t"}, {"%41", "A"}, {"a\\", "a"}, {"k ", "k"}}
+
 func (r *R) objTree(o *TreeOpts) *V {
 	if o.Stress && r.chance(stressShare) {
 		return r.stressTree(o, true)
@@ -650,6 +660,15 @@ func (r *R) objTree(o *TreeOpts) *V {
 		}
 		seen[k] = true
 		ob.O = append(ob.O, KV{k, r.tree(o, o.Depth-1)})
+	}
+	if r.chance(0.05) {
+		tw := pickOf(r, keyTwins)
+		for _, k := range tw {
+			if !seen[k] {
+				seen[k] = true
+				ob.O = append(ob.O, KV{k, r.scalar(o)})
+			}
+		}
 	}
 	return ob
 }
